@@ -478,7 +478,7 @@ func compareQPRAgg(a simenv.AggReq, got *seq.AggregatableSamples, want *model.Ag
 			if (a.Field != "big" && gb.Sum != wb.Sum) || gb.Min != wb.Min || gb.Max != wb.Max {
 				return fmt.Sprintf("bin %q sum/min/max %v/%v/%v, model %v/%v/%v", k, gb.Sum, gb.Min, gb.Max, wb.Sum, wb.Min, wb.Max)
 			}
-			if a.Func == "quantile" && len(wb.Samples) <= seq.VerifMaxHistogramSamples() {
+			if needsSamples(a) && len(wb.Samples) <= seq.VerifMaxHistogramSamples() {
 				gs := append([]float64(nil), gb.Samples...)
 				sort.Float64s(gs)
 				if len(gs) != len(wb.Samples) {
